@@ -20,6 +20,7 @@ import (
 	"strings"
 	"sync"
 	"testing"
+	"time"
 
 	"github.com/nspcc-dev/neo-go/verifharness/vlib/ev"
 )
@@ -149,15 +150,20 @@ func runLaws(run *ev.Run) {
 	run.Assume("laws: references share no code with neo-go: math/big Base58, arithmetic two's complement, recursive Merkle, hand-written scripts, crypto/ecdsa + crypto/ecdh + crypto/elliptic for P-256, a textbook affine-coordinate ECDSA/RFC 6979 over math/big for both curves, x/crypto scrypt + crypto/aes for NEP-2")
 	run.Assume("laws: altered signatures exclude the (r, n-s) twin, which ECDSA accepts by construction; an altered signature or wrong passphrase passing by chance has probability about 2^-32 or less")
 	run.Assume("laws: equality with the independent RFC 6979 signer is recorded as an observation, the verdict demands only reproducibility")
-	keyFamily(run, ev.Pick(6000, 200000))
-	k1Family(run, ev.Pick(300, 6000))
-	nep2Family(run, ev.Pick(600, 20000), ev.Pick(6, 48))
-	b58Family(run, ev.Pick(8000, 300000))
-	addrFamily(run, ev.Pick(3000, 100000))
-	uintFamily(run, ev.Pick(4000, 100000))
-	fixedFamily(run, ev.Pick(8000, 300000))
-	bigintFamily(run, ev.Pick(12000, 400000))
-	merkleFamily(run, ev.Pick(8, 80))
-	scriptFamily(run, ev.Pick(4000, 120000))
-	msScriptFamily(run, ev.Pick(1500, 30000))
+	timed := func(name string, f func()) {
+		t0 := time.Now()
+		f()
+		run.Note("seconds_"+name, time.Since(t0).Round(100*time.Millisecond).Seconds()) // information only
+	}
+	timed("key", func() { keyFamily(run, ev.Pick(6000, 150000)) })
+	timed("k1", func() { k1Family(run, ev.Pick(300, 5000)) })
+	timed("nep2", func() { nep2Family(run, ev.Pick(600, 20000), ev.Pick(6, 48)) })
+	timed("base58check", func() { b58Family(run, ev.Pick(8000, 300000)) })
+	timed("address", func() { addrFamily(run, ev.Pick(3000, 100000)) })
+	timed("uint", func() { uintFamily(run, ev.Pick(4000, 100000)) })
+	timed("fixed", func() { fixedFamily(run, ev.Pick(8000, 300000)) })
+	timed("vmint", func() { bigintFamily(run, ev.Pick(12000, 400000)) })
+	timed("merkle", func() { merkleFamily(run, ev.Pick(8, 80)) })
+	timed("script", func() { scriptFamily(run, ev.Pick(4000, 120000)) })
+	timed("msscript", func() { msScriptFamily(run, ev.Pick(1500, 30000)) })
 }
